@@ -1,6 +1,9 @@
 package hx
 
 import (
+	"encoding/json"
+	"strconv"
+
 	intoto "github.com/in-toto/in-toto-golang/in_toto"
 )
 
@@ -56,6 +59,11 @@ func (v MVal) Lib() any {
 	case "s":
 		return v.S
 	case "i":
+		// what loading a file yields: a float64 - unless the integer needs more than 53 bits, which a
+		// caller can only hold exactly as int64 / json.Number (and which a file may well contain)
+		if strconv.FormatFloat(float64(v.I), 'f', -1, 64) != strconv.FormatInt(v.I, 10) {
+			return json.Number(strconv.FormatInt(v.I, 10))
+		}
 		return float64(v.I)
 	case "f":
 		return v.F
